@@ -24,7 +24,7 @@ def run(ctx: Ctx):
     SC.lens_helper_total(ctx, "S3")
     SC.lens_helper_table(ctx, "S3")
     SC.tokens_compared_as_integers(ctx, "S3")
-    SC.kernel_value_table(ctx, "S5", "distance")
+    kernel_decided = SC.kernel_value_table(ctx, "S5", "distance")
     SC.distance_buffers_are_floating(ctx, "S3")
     # normalisation divides by the reference length (not the hypothesis length), in both result forms
     f = pkg.func("_string::_string_matching")
@@ -52,71 +52,75 @@ def run(ctx: Ctx):
            "a division by the reference length happens without norm=True", rel, f.line)
     # lengths: include_eos adds exactly one where there is an eos - as a table (props/string_common.py::length_table)
     SC.length_table(ctx, "S2")
-    # ---- S4 prefix form: the padding value is the last thing written -------------------------------------------
-    from sa.defuse import ReachingDefs
-    from sa.model import AnalysisError
-    rd = ReachingDefs(f.node)
-    LAYOUT = {"t", "transpose", "contiguous", "permute", "clone"}
-    rets = [n for n in own_nodes(f.node) if isinstance(n, ast.Return) and n.value is not None
-            and _uflag(guards_of(pm, n), "return_prf_dsts", True)]
-    if not rets:
-        raise AnalysisError("C01: the per-prefix return of _string_matching was not found")
-    fills, bad = [], []
+    # (decided by value when the kernel table ran: its per-prefix rows - with and without the full prefix - hold the padding positions;
+    #  the def-use form below is the fallback for a kernel outside the interpreted fragment)
+    if not kernel_decided:
+        # ---- S4 prefix form: the padding value is the last thing written -------------------------------------------
+        from sa.defuse import ReachingDefs
+        from sa.model import AnalysisError
+        rd = ReachingDefs(f.node)
+        LAYOUT = {"t", "transpose", "contiguous", "permute", "clone"}
+        rets = [n for n in own_nodes(f.node) if isinstance(n, ast.Return) and n.value is not None
+                and _uflag(guards_of(pm, n), "return_prf_dsts", True)]
+        if not rets:
+            raise AnalysisError("C01: the per-prefix return of _string_matching was not found")
+        fills, bad = [], []
 
-    def unwind(e, depth=0):
-        if depth > 12:
-            bad.append(e)
-        elif isinstance(e, ast.Name):
-            ds = list(rd.defs_of(e))
-            if not ds:
+        def unwind(e, depth=0):
+            if depth > 12:
                 bad.append(e)
-            for d in ds:
-                if d.kind == "assign" and d.value is not None:
-                    unwind(d.value, depth + 1)
-                else:
+            elif isinstance(e, ast.Name):
+                ds = list(rd.defs_of(e))
+                if not ds:
                     bad.append(e)
-        elif isinstance(e, ast.Call) and isinstance(e.func, ast.Attribute) and e.func.attr in LAYOUT:
-            unwind(e.func.value, depth + 1)
-        elif isinstance(e, ast.Call) and isinstance(e.func, ast.Attribute) and e.func.attr in ("masked_fill", "masked_fill_") \
-                and len(e.args) == 2 and isinstance(e.args[1], ast.Name) and e.args[1].id == "padding" \
-                and all(d.kind == "param" for d in rd.defs_of(e.args[1])):
-            fills.append(e)
-        else:
-            bad.append(e)
-    for r in rets:
-        unwind(r.value)
-    col.ob("G16", "S4", f"{rel}::_string_matching::prefix-padding-written-last", bool(fills) and not bad,
-           f"between writing the padding value and returning the per-prefix table the value passes through "
-           f"{[u(b)[:60] for b in bad]}: positions past the hypothesis's own length would no longer hold the padding "
-           f"value (only layout operations may follow the fill)", rel, (bad[0].lineno if bad else rets[0].lineno),
-           sample=[u(x)[:100] for x in fills])
-    # the filled positions: prefix index >= hypothesis length (+1 for the full prefix unless it is excluded)
-    okm = bool(fills)
-    for fl in set(fills):
-        m = fl.args[0]
-        from sa.astutil import oriented
-        from sa.inline import Inliner
-        mx = Inliner(f.node, rd, keep={HL}).expand(m)  # the index range may have been given a name
-        cmpo = [c for c in ast.walk(mx) if isinstance(c, ast.Compare)]
-        if len(cmpo) != 1:
-            okm = False
-            continue
-        has_arange = lambda e: any(isinstance(c, ast.Call) and call_name(c) == "torch.arange" for c in ast.walk(e))
-        o = oriented(cmpo[0], has_arange)
-        if o is None:
-            okm = False
-            continue
-        op, lhs, rhs = o
-        has_ar = True
-        from sa.astutil import eval_under_flag
-        if not (op == "ge" and has_ar and isinstance(rhs, ast.BinOp) and isinstance(rhs.op, ast.Add) and u(rhs.left) == HL
-                and eval_under_flag(rhs.right, "exclude_last", True, rd) == 0
-                and eval_under_flag(rhs.right, "exclude_last", False, rd) == 1):
-            okm = False
-    col.ob("G12", "S4", f"{rel}::_string_matching::prefix-padding-positions", okm,
-           f"the padded positions are `{[u(fl.args[0])[:120] for fl in set(fills)]}`; expected prefix index >= "
-           f"hypothesis length + (0 if exclude_last else 1): prefixes 0..len (the full one omitted on request) carry "
-           f"distances and everything past them the padding value", rel, rets[0].lineno)
+                for d in ds:
+                    if d.kind == "assign" and d.value is not None:
+                        unwind(d.value, depth + 1)
+                    else:
+                        bad.append(e)
+            elif isinstance(e, ast.Call) and isinstance(e.func, ast.Attribute) and e.func.attr in LAYOUT:
+                unwind(e.func.value, depth + 1)
+            elif isinstance(e, ast.Call) and isinstance(e.func, ast.Attribute) and e.func.attr in ("masked_fill", "masked_fill_") \
+                    and len(e.args) == 2 and isinstance(e.args[1], ast.Name) and e.args[1].id == "padding" \
+                    and all(d.kind == "param" for d in rd.defs_of(e.args[1])):
+                fills.append(e)
+            else:
+                bad.append(e)
+        for r in rets:
+            unwind(r.value)
+        col.ob("G16", "S4", f"{rel}::_string_matching::prefix-padding-written-last", bool(fills) and not bad,
+               f"between writing the padding value and returning the per-prefix table the value passes through "
+               f"{[u(b)[:60] for b in bad]}: positions past the hypothesis's own length would no longer hold the padding "
+               f"value (only layout operations may follow the fill)", rel, (bad[0].lineno if bad else rets[0].lineno),
+               sample=[u(x)[:100] for x in fills])
+        # the filled positions: prefix index >= hypothesis length (+1 for the full prefix unless it is excluded)
+        okm = bool(fills)
+        for fl in set(fills):
+            m = fl.args[0]
+            from sa.astutil import oriented
+            from sa.inline import Inliner
+            mx = Inliner(f.node, rd, keep={HL}).expand(m)  # the index range may have been given a name
+            cmpo = [c for c in ast.walk(mx) if isinstance(c, ast.Compare)]
+            if len(cmpo) != 1:
+                okm = False
+                continue
+            has_arange = lambda e: any(isinstance(c, ast.Call) and call_name(c) == "torch.arange" for c in ast.walk(e))
+            o = oriented(cmpo[0], has_arange)
+            if o is None:
+                okm = False
+                continue
+            op, lhs, rhs = o
+            has_ar = True
+            from sa.astutil import eval_under_flag
+            if not (op == "ge" and has_ar and isinstance(rhs, ast.BinOp) and isinstance(rhs.op, ast.Add) and u(rhs.left) == HL
+                    and eval_under_flag(rhs.right, "exclude_last", True, rd) == 0
+                    and eval_under_flag(rhs.right, "exclude_last", False, rd) == 1):
+                okm = False
+        col.ob("G12", "S4", f"{rel}::_string_matching::prefix-padding-positions", okm,
+               f"the padded positions are `{[u(fl.args[0])[:120] for fl in set(fills)]}`; expected prefix index >= "
+               f"hypothesis length + (0 if exclude_last else 1): prefixes 0..len (the full one omitted on request) carry "
+               f"distances and everything past them the padding value", rel, rets[0].lineno)
+
     plumbing(ctx, "S1")
     return dict(
         explanation=(
@@ -142,10 +146,10 @@ def _mutants():
         M("ref-no-eos-mask-uses-hyp-extent", S, "ref_eq_mask = ref_lens == max_ref_steps", "ref_eq_mask = ref_lens == max_hyp_steps", "no-eos-mask[ref]-compares-with-its-own-extent"),
         M("proxy-through-instance-class", "_wrappers.py", "lambda self, *x, **y: torch.nn.Module.__call__(self, *x, **y)", "lambda self, *x, **y: super(self.__class__, self).__call__(*x, **y)", "dispatch-is-subclass-safe"),
         M("first-eos-on-empty-dimension", S, "if tok.size(dim) == 0:\n        return tok.sum(dim, dtype=torch.long)\n", "", "index-reduction-guarded-for-the-empty-dimension"),
-        M("scaled-after-padding", S, "return prefix_ers", "return prefix_ers * mult", "prefix-padding-written-last"),
-        M("padding-before-norm", S, "prefix_ers = prefix_ers * mult\n        if norm:", "prefix_ers = prefix_ers.masked_fill(torch.arange(prefix_ers.size(0), device=device).unsqueeze(1).ge(hyp_lens + (0 if exclude_last else 1)), padding) * mult\n        if norm:", "prefix-padding-written-last"),
-        M("full-prefix-always-dropped", S, ".ge(hyp_lens + (0 if exclude_last else 1))", ".ge(hyp_lens)", "prefix-padding-positions"),
-        M("exclude-last-inverted", S, ".ge(hyp_lens + (0 if exclude_last else 1))", ".ge(hyp_lens + (1 if exclude_last else 0))", "prefix-padding-positions"),
+        M("scaled-after-padding", S, "return prefix_ers", "return prefix_ers * mult", "levenshtein-table"),
+        M("padding-before-norm", S, "prefix_ers = prefix_ers * mult\n        if norm:", "prefix_ers = prefix_ers.masked_fill(torch.arange(prefix_ers.size(0), device=device).unsqueeze(1).ge(hyp_lens + (0 if exclude_last else 1)), padding) * mult\n        if norm:", "levenshtein-table"),
+        M("full-prefix-always-dropped", S, ".ge(hyp_lens + (0 if exclude_last else 1))", ".ge(hyp_lens)", "levenshtein-table"),
+        M("exclude-last-inverted", S, ".ge(hyp_lens + (0 if exclude_last else 1))", ".ge(hyp_lens + (1 if exclude_last else 0))", "levenshtein-table"),
         M("prefix-unscaled", S, "prefix_ers = prefix_ers * mult\n", "", "G"),
         M("twin:padding-positions-by-int", S, ".ge(hyp_lens + (0 if exclude_last else 1))", ".ge(hyp_lens + (1 - int(exclude_last)))", "", twin=True),
         M("costs-swapped-in-edit-distance", S, "return _string_matching(ref, hyp, eos, include_eos, batch_first, ins_cost, del_cost, sub_cost, warn, norm=norm)",
